@@ -834,21 +834,21 @@ class Object(ObjectAliasMixin):
         See also: [`filepath`][griffe.Object.filepath],
         [`relative_package_filepath`][griffe.Object.relative_package_filepath].
 
-        Raises:
-            ValueError: When the relative path could not be computed.
+        For a namespace package (several directories), the first directory that is relative
+        to the current working directory is used, or the first one when none is.
         """
         try:
             cwd = Path.cwd()
-        except OSError as error:
+        except OSError:
             # The current working directory does not exist anymore: nothing is relative to it.
-            if isinstance(self.filepath, list):
-                raise ValueError(f"No directory in {self.filepath!r} is relative to a missing working directory") from error
-            return self.filepath
+            return self.filepath[0] if isinstance(self.filepath, list) else self.filepath
         if isinstance(self.filepath, list):
             for self_path in self.filepath:
                 with suppress(ValueError):
                     return self_path.relative_to(cwd)
-            raise ValueError(f"No directory in {self.filepath!r} is relative to the current working directory {cwd}")
+            # Like regular modules outside of the current working directory: the path as it is
+            # (namespace packages loaded from a temporary Git worktree or from site-packages are always there).
+            return self.filepath[0]
         try:
             return self.filepath.relative_to(cwd)
         except ValueError:
